@@ -154,8 +154,10 @@ func (r *runner) round(round int, honest []*sent, forged []*tampered) {
 		} else {
 			if v.ok {
 				c.Probe("authorised-refused-" + s.kind.String())
-				if s.kind == kUtx && s.utx.spent != nil {
-					s.utx.spent.pending = false
+				if s.kind == kUtx {
+					for _, o := range s.utx.spent {
+						o.pending = false
+					}
 				}
 			} else {
 				c.Probe("unauthorised-submission-refused")
@@ -605,9 +607,14 @@ func (r *runner) commit(blk *types.Block, raws [][]byte, subs []*sent) {
 				return
 			}
 			if i < len(subs) && subs[i] != nil && subs[i].utx != nil {
-				if o := subs[i].utx.spent; o != nil {
-					o.spent, o.pending = true, false
+				if sp := subs[i].utx.spent; len(sp) > 0 {
+					for _, o := range sp {
+						o.spent, o.pending = true, false
+					}
 					c.Probe("utxo-spend-committed")
+					if len(sp) > 1 {
+						c.Probe("utxo-two-input-spend-committed")
+					}
 					if subs[i].utx.withdraw {
 						c.Probe("utxo-withdraw-to-account-committed")
 					}
